@@ -366,7 +366,14 @@ func (ex *Exec) binop(st *State, in *ssa.BinOp) (Value, bool) {
 	xv, yv := ex.get(st, in.X), ex.get(st, in.Y)
 	xt := in.X.Type()
 	if isTimeType(xt) {
-		panic(ex.unsupported("binop on time.Time"))
+		// time.Time values are instants (Int); == compares instants
+		switch in.Op {
+		case token.EQL:
+			return tb.Eq(xv.(*Term), yv.(*Term)), true
+		case token.NEQ:
+			return tb.Not(tb.Eq(xv.(*Term), yv.(*Term))), true
+		}
+		panic(ex.unsupported("binop %s on time.Time", in.Op))
 	}
 	switch u := xt.Underlying().(type) {
 	case *types.Basic:
@@ -753,7 +760,7 @@ func (ex *Exec) step(st *State, instr ssa.Instruction) bool {
 		}
 		gt, gf := tb.And(st.G, c), tb.And(st.G, tb.Not(c))
 		inLoop := len(st.top().fi.loops[in.Block()]) > 0
-		if ex.FeasAll || inLoop {
+		if ex.FeasAll || (inLoop && !(ex.curWorld != nil && st.thread == nil)) {
 			if os.Getenv("VERIF_DEBUG") == "3" {
 				fmt.Printf("[if] %s cond=%s\n", ex.posString(in.Cond.Pos()), ex.tb.Show(c))
 			}
